@@ -6,6 +6,7 @@ CONSTANTS
   KF_FindUnitRelock = FALSE
   MaxOps = 4
   ExportOps = 2
+  VerifierRemembersTokens = FALSE
   RedactNeedsTLSRecord = FALSE
   KeyFamily = "all"
   DumpFile = "c19.ndjson"
